@@ -37,6 +37,7 @@ package parse
 //@   ensures [depth-cut] maxImportDepth > 0 && currentImportDepth >= maxImportDepth ==> result == nil && !ghost("read") && !ghost("claimed")
 //@   ensures [unlocked-at-exit] !ghost("locked")
 //@   errprop ReadHashBranch parse.parseImports Group).Wait
+//@   structure no-channel-ops
 
 //@ func (*Parser).collectSpecs$1
 //@   requires p != nil && retrieved != nil && retrieved.l != nil
@@ -45,6 +46,7 @@ package parse
 
 //@ func (*Parser).Parse
 //@   errprop-nil (*Parser).collectSpecs
+//@   structure no-channel-ops
 
 //@ func parseImports
 //@   errprop-nil parse.parseString
@@ -83,10 +85,12 @@ package parse
 // goroutine body: a failed foreign import is returned to the errgroup (never swallowed)
 //@ func (*Parser).parseSpecs$1
 //@   errprop parse.importForeign
+//@   structure no-channel-ops
 
 // g.Wait() failing, a compiled-model merge failing or a syntax error all end the compile with (nil, err)
 //@ func (*Parser).parseSpecs
 //@   errprop-nil Group).Wait mergo.Merge parse.parseString
+//@   structure no-channel-ops
 
 // ---- C01 / C07: parser panics become a ParseError; per-parse lexer state is always released
 
